@@ -139,6 +139,40 @@ H_DUMPS = {
 }
 
 
+def judge_lazy(seq, mode):
+    """all generators are CREATED first (same parser object / same facade), then consumed one after the other: after each has
+    been consumed the tables must be that dump's map; events must be each dump's own."""
+    if mode == 'kd1':
+        tp, pn = {}, {}
+        p = KdBufParser(tp, pn)
+        make = lambda blob: p.parse(io.BytesIO(blob))
+    elif mode == 'kd1-v2direct':
+        tp, pn = {}, {}
+        p = KdBufParser(tp, pn)
+
+        def make(blob):
+            r = io.BytesIO(blob)
+            r.read(4)
+            return p.parse_v2(r)
+    else:
+        f = PyKdebugParser()
+        tp, pn = f.threads_pids, f.pids_names
+        make = lambda blob: f.kevents(io.BytesIO(blob))
+    built = [build(*H_DUMPS[name]) for name in seq]
+    try:
+        gens = [make(b[0]) for b in built]
+        for step, (g, (blob, threads, recs)) in enumerate(zip(gens, built)):
+            got = [obs_event(e) for e in g]
+            if got != [ref_decode(r) for r in recs]:
+                return [('v2-history-events', {'step': step, 'mode': 'lazy-' + mode})]
+            exp_tp, exp_pn = thread_tables(threads)
+            if tp != exp_tp or pn != exp_pn:
+                return [('v2-history-leftover-or-missing-table-entry', {'step': step, 'mode': 'lazy-' + mode, 'tp': repr(tp), 'exp_tp': repr(exp_tp)})]
+    except Exception as ex:
+        return [('v2-history-raised:' + type(ex).__name__, {'error': repr(ex)[:200]})]
+    return []
+
+
 def judge_history(seq, mode):
     """seq of dump names; mode: 'kd' (same dicts, new KdBufParser each), 'kd1' (one KdBufParser object),
     'facade' (one PyKdebugParser), 'facade+traces' (a traces() run first that learns extra names)."""
@@ -222,7 +256,7 @@ class C02(Check):
             'names) x padding length (12 values incl. 0, 1, 63..65, page alignment) x record sequence (<=2 (quick) / <=3 '
             '(thorough) over 8 record kinds incl. records beginning with 1,2,7,8 zero bytes and an all-zero record in '
             'non-first position) x both entry points; plus all sequences of <=3 parses over 4 dumps through the same table '
-            'objects in 4 reuse modes; plus two parses ALIVE AT ONCE (3x3 dump pairs), their generators advanced in every interleaving; plus dumps of 63..4097 records. Oracle: events == independent decode of each record; tables == file map (last wins), '
+            'objects in 4 reuse modes, and with all generators created first and consumed afterwards (same parser via parse(), via parse_v2() directly, same facade); plus two parses ALIVE AT ONCE (3x3 dump pairs), their generators advanced in every interleaving; plus dumps of 63..4097 records. Oracle: events == independent decode of each record; tables == file map (last wins), '
             'identity preserved, nothing left over. non-trivial = dump has >=1 record and >=1 map entry (or history length >=2). '
             'states = distinct table contents after a parse; transitions = parse calls.')
     assumptions = ('a first record of 64 zero bytes is indistinguishable from padding and is not generated first',
@@ -306,12 +340,20 @@ class C02(Check):
                     acc.case(nontrivial=len(seq) >= 2, transitions=len(seq), state=h64(st), outcome=h64((seq, st)))
                     for sig, detail in bad:
                         acc.violation(sig, {'kind': 'hist', 'seq': list(seq), 'mode': mode}, detail)
+            for mode in ('kd1', 'kd1-v2direct', 'facade'):
+                for seq in seqs(list(H_DUMPS), 3, 2):
+                    bad = judge_lazy(seq, mode)
+                    acc.case(nontrivial=True, transitions=len(seq), outcome=h64((seq, 'lazy', mode)))
+                    for sig, detail in bad:
+                        acc.violation(sig, {'kind': 'lazy', 'seq': list(seq), 'mode': mode}, detail)
             acc.sample({'parse_history': ['A', 'C', 'E'], 'mode': 'facade+traces'})
 
     def replay(self, case):
         if case['kind'] == 'dump':
             pad = case['pad']
             return judge_dump(tuple(case['tm']), pad, tuple(case['records']), case['entry'])
+        if case['kind'] == 'lazy':
+            return judge_lazy(tuple(case['seq']), case['mode'])
         if case['kind'] == 'long':
             from mc.run import Acc
             acc = Acc()
